@@ -751,3 +751,22 @@ seeded('C05', 'error class renders its message lazily', 'R5.6',
        [('simevent', "        except:\n            raise(DSOLError(f\"method {self._method}(..) is not callable \" \\\n                +f\"on {self._target} with arguments {self._kwargs}\"))",
          "        except:\n            raise _ExecuteError(self)"),
         ('simevent', "class SimEventInterface(ABC):", "class _ExecuteError(DSOLError):\n    def __init__(self, event):\n        super().__init__(event)\n        self.event = event\n\n    def __str__(self):\n        return f\"method {self.event._method}(..) is not callable on {self.event._target}\"\n\n\nclass SimEventInterface(ABC):")], key='lazy-text')
+
+# ===================================================================================================== round 12 additions
+_RS = "        self._random.setstate(state)"
+seeded('C12', 'restore_state refuses the position right after seeding', 'R12.15',
+       [('streams', _RS, "        if isinstance(state, tuple) and len(state) == 3 and state[0] == 3:\n            if not 0 <= state[1][-1] < 624:\n"
+                         "                raise ValueError('position outside the state vector')\n" + _RS)], key='refuses-saved-state')
+seeded('C12', 'restore_state insists on a buffered gaussian', 'R12.15',
+       [('streams', _RS, "        version, internal, gauss_next = state\n        if not isinstance(gauss_next, float):\n"
+                         "            raise TypeError('gauss_next should be a float')\n" + _RS)], key='refuses-saved-state')
+seeded('C12', 'restore_state counts 624 items', 'R12.15',
+       [('streams', _RS, "        if len(state[1]) != 624:\n            raise ValueError('internal state should have 624 words')\n" + _RS)], key='refuses-saved-state')
+benign('C12', 'restore_state checks the layout of the saved state first',
+       [('streams', _RS, "        if not isinstance(state, (tuple, list)) or len(state) != 3:\n            raise TypeError('not a saved state')\n"
+                         "        version, internal, gauss_next = state\n        if version == 3:\n"
+                         "            if len(internal) != 625 or not all(isinstance(w, int) for w in internal):\n                raise ValueError('bad internal state')\n"
+                         "            if not 1 <= internal[-1] <= 624:\n                raise ValueError('position outside the state vector')\n"
+                         "            if gauss_next is not None and not isinstance(gauss_next, float):\n                raise TypeError('bad gauss_next')\n" + _RS)])
+benign('C12', 'restore_state checks the words in a loop',
+       [('streams', _RS, "        for w in state[1][:624]:\n            if not 0 <= w < 2 ** 32:\n                raise ValueError('word out of range')\n" + _RS)])
